@@ -68,6 +68,18 @@ def meta_events(draw, max_tick=200, max_events=3, unit=1, with_noise=False, tick
     for _ in range(n):
         kind = draw(st.sampled_from(kinds))
         t = draw(tick_s)
+        if kind == "cc":
+            # several control changes may share a tick as long as their controller numbers differ (bank select 0 + 32, pedals);
+            # half of the time a further one is put on the tick of an earlier one
+            prev_cc = [e for e in ev if e[0] == "cc"]
+            if prev_cc and draw(st.booleans()):
+                t = draw(st.sampled_from(prev_cc))[1]
+            ctl = draw(st.one_of(st.sampled_from([0, 32, 64, 66, 7]), st.integers(0, 127)))
+            if ("cc", t, ctl) in seen:
+                continue
+            seen.add(("cc", t, ctl))
+            ev.append(["cc", t, ctl, draw(st.integers(0, 127))])
+            continue
         if (kind, t) in seen:
             continue
         seen.add((kind, t))
@@ -84,8 +96,6 @@ def meta_events(draw, max_tick=200, max_events=3, unit=1, with_noise=False, tick
         elif kind == "ks":
             prev = [e[2] for e in ev if e[0] == "ks"]
             ev.append(["ks", t, draw(st.one_of(st.sampled_from(KEYS), st.sampled_from(prev) if prev else st.just("C")))])
-        elif kind == "cc":
-            ev.append(["cc", t, draw(st.integers(0, 127)), draw(st.integers(0, 127))])
         else:
             ev.append(["pc", t, draw(st.integers(0, 127))])
     return ev
